@@ -4,14 +4,8 @@
    and to the stiffness matrix.  Definitions only, over an abstract scalar (record Num): instantiated with R
    for the theorems and with Q for the execution against the real code (correspondence). *)
 From Coq Require Import ZArith QArith Reals List.
+From C53 Require Import C53Spec.   (* only for the scalar record Num / RNum / QNum *)
 Import ListNotations.
-
-Record Num (T : Type) := mkNum {
-  nadd : T -> T -> T; nsub : T -> T -> T; nmul : T -> T -> T; ndiv : T -> T -> T; nZ : Z -> T }.
-Arguments nadd {T}. Arguments nsub {T}. Arguments nmul {T}. Arguments ndiv {T}. Arguments nZ {T}.
-
-Definition RNum : Num R := mkNum R Rplus Rminus Rmult Rdiv IZR.
-Definition QNum : Num Q := mkNum Q Qplus Qminus Qmult Qdiv inject_Z.
 
 Declare Scope num_scope.
 Delimit Scope num_scope with num.
@@ -112,8 +106,9 @@ Section Model.
   Definition zeros (n : nat) : list T := repeat (c 0) n.
   Definition elem_forces (e : Elem) (at_rg : bool) (gps : list (T * T)) (K rs us : list T) (ezz twopi : T) : list T :=
     fold_right (fun xw acc => vadd (gp_forces e at_rg K rs us ezz twopi xw) acc) (zeros (S (length rs))) gps.
-  Definition elem_forces_of_stress (e : Elem) (gps : list (T * T)) (rs : list T) (twopi : T) (sg : T * T * T) : list T :=
-    fold_right (fun xw acc => vadd (gp_forces_of_stress e false rs twopi xw sg) acc) (zeros (S (length rs))) gps.
+  Definition elem_forces_of_stress (e : Elem) (at_rg : bool) (gps : list (T * T)) (rs : list T) (twopi : T) (sg : T * T * T)
+    : list T :=
+    fold_right (fun xw acc => vadd (gp_forces_of_stress e at_rg rs twopi xw sg) acc) (zeros (S (length rs))) gps.
 
   (* contribution of a Gauss point to the stiffness matrix, rows l = 0..nn (last row/column: axial strain) *)
   Definition gp_stiffness (e : Elem) (at_rg : bool) (K rs : list T) (twopi : T) (xw : T * T) : list (list T) :=
